@@ -74,6 +74,8 @@ class World(BaseWorld):
                     ops.append({'op': k, 'value': gen_spacing(ro)})
             elif k == 'set_length':
                 ops.append({'op': k, 'value': glen()})
+            elif k == 'roundtrip' and ro.random() < 0.25:
+                ops.append({'op': k, 'kind': ro.choice(['noise', 'smooth', 'spike', 'const']), 'dtype': ro.choice(['int64', 'bool', 'float32'])})
             elif k == 'roundtrip':
                 ops.append({'op': k, 'kind': ro.choice(['noise', 'smooth', 'spike', 'const'])})
             elif k == 'linearity':
@@ -226,6 +228,23 @@ class World(BaseWorld):
                 ctx.probe('two_setter_kinds')
             if name == 'roundtrip':
                 f = arr(step, 'rt', N, op['kind'])
+                dt = op.get('dtype', 'float64')
+                if dt == 'int64':
+                    f = np.round(4 * f).astype(np.int64)         # a real array of integers (step functions, counts)
+                elif dt == 'bool':
+                    f = f > 0
+                elif dt == 'float32':
+                    f = f.astype(np.float32)
+                if dt != 'float64':
+                    ctx.probe('roundtrip_dtype_' + dt)
+                    if not np.any(f):
+                        f = np.ones(N, dtype=f.dtype)
+                    # the transform of an integer / single-precision array is the transform of the same numbers
+                    Fd = lib('to_fourier', d.to_fourier, np.copy(f))
+                    Fr = lib('to_fourier', d.to_fourier, np.asarray(f, dtype=float))
+                    if relerr(np.asarray(Fd, dtype=float), Fr) > RT_TOL:
+                        raise Violation('transform_depends_on_input_dtype', 'roundtrip', {'dtype': dt, 'err': relerr(np.asarray(Fd, dtype=float), Fr)}, step)
+                    f = np.asarray(f, dtype=float) if dt != 'float32' else f
                 F = lib('to_fourier', d.to_fourier, np.copy(f))
                 f2 = lib('to_real', d.to_real, np.copy(F))
                 e = relerr(f2, f)
@@ -350,7 +369,7 @@ class World(BaseWorld):
     def expected_probes(self, tier):
         return ['dk_ctor', 'dr_ctor', 'length_set_after_dk', 'length_set_after_dr', 'nonpow2', 'decimal_spacing', 'refused_transform',
                 'two_setter_kinds', 'roundtrip', 'linearity', 'sine_matrix_oracle', 'ma_to_fourier', 'ma_to_real', 'ma_integer_type_names',
-                'ma_data_layout_F', 'ma_data_layout_T', 'ma_data_layout_block', 'spacing_nudged', 'failed_transform_left_array_alone']
+                'ma_data_layout_F', 'ma_data_layout_T', 'ma_data_layout_block', 'spacing_nudged', 'failed_transform_left_array_alone', 'roundtrip_dtype_int64', 'roundtrip_dtype_bool', 'roundtrip_dtype_float32']
 
     def rule(self):
         return ('Each run = one seed -> construct(length in 1..300 incl. primes and 2^k+-1, or 512..4096; via dr or dk; spacing log-uniform '
